@@ -26,6 +26,14 @@ CHECKS["C14"] = (
     "DESIGN.md section 4, C14",
 )
 
+CHECKS["C15"] = (
+    "E4-config-enumerator",
+    "exhaustive enumeration of annotation terms of bounded depth x position-aimed value pool against an independent structural reference evaluated on the term tree",
+    "Every annotation term of the stated type language up to depth 2 (all atoms, all constructors over atoms, all unary constructors over depth-1 terms, binary constructors over a small family; thorough: binary with one atomic side over all depth-1 terms and depth-3 unary towers; 1.5e4 / 1.7e5 terms) is paired with a base pool of ~65 values plus per-term conforming values and values failing at each structural position; check_type must agree with the reference on every pair and never raise. Exhaustive over the enumerated finite grammar.",
+    "Trusts the reference `conforms` (props/c15.py, ~90 lines, evaluated on the term tree, never on typing objects); CPython 3.12 typing; Fraction-like Real numbers not in the pool.",
+    "DESIGN.md section 4, C15",
+)
+
 ENGINES = [
     {"name": "E1-explicit-state", "path": "mc/common.py, props/*.py (explore)", "serves_properties": [],
      "kind_free_text": "breadth-first explicit-state search over the real transition function; a state is the shortest operation history that reaches it, rebuilt by replay; canonical-form deduplication; lock-step reference model"},
